@@ -1,6 +1,7 @@
 package security
 
 import (
+	"strconv"
 	"strings"
 	"time"
 
@@ -11,6 +12,7 @@ func init() {
 	vRegister("VH_C16_Parse", VH_C16_Parse)
 	vRegister("VH_C16_Policy", VH_C16_Policy)
 	vRegister("VH_C16_MintImport", VH_C16_MintImport)
+	vRegister("VH_C16_Expiry", VH_C16_Expiry)
 }
 
 // VH_C16_Parse: for any session id (may itself contain '#', brackets and sinful
@@ -214,4 +216,42 @@ func VH_C16_MintImport() {
 	vAssert(strings.HasSuffix(pub, "#...") && !strings.Contains(pub, secret), "public-form-hides-the-secret")
 	vAssert(strings.HasSuffix(minted.ClaimID(), secret), "claim-id-carries-the-secret-last")
 	vCover("mint-import-agree")
+}
+
+// VH_C16_Expiry: both ends of a claim derive the expiry from the policy text by
+// claimExpiration. For every embedded absolute SessionExpires (1 .. 2^40 s) and
+// whatever the clock reads -- before or after that instant -- the result is exactly
+// that instant, so minter and importer agree on it whenever each of them evaluates
+// it; without the attribute (or with 0) the fallback lifetime, or no expiry, applies.
+//
+//verif:unwind 16
+func VH_C16_Expiry() {
+	// the instant is placed relative to the harness's own clock reading (at least
+	// ten seconds away from it) so that the native clock agrees about the side
+	base := time.Now().Unix()
+	off := vInt64("off")
+	vAssume(off >= -100000000 && off <= 100000000)
+	vAssume(off <= -10 || off >= 10)
+	secs := base + off
+	vAssume(secs >= 1)
+	fb := time.Duration(vIteInt(vBool("has_fallback"), int(time.Hour), 0))
+	policy := classad.New()
+	_ = policy.Set("SessionExpires", strconv.FormatInt(secs, 10))
+	exp := claimExpiration(policy, fb)
+	vAssert(!exp.IsZero() && exp.Unix() == secs, "embedded-expiry-used-verbatim-whatever-the-clock-reads")
+	if off < 0 {
+		vCover("already-past")
+	} else {
+		vCover("still-ahead")
+	}
+	none := classad.New()
+	if vBool("zero_text") {
+		_ = none.Set("SessionExpires", "0")
+	}
+	e2 := claimExpiration(none, fb)
+	if fb == 0 {
+		vAssert(e2.IsZero(), "no-expiry-without-embedded-or-fallback-lifetime")
+	} else {
+		vAssert(!e2.IsZero(), "fallback-lifetime-applies-without-embedded-expiry")
+	}
 }
